@@ -1,6 +1,7 @@
 """Per-check metadata for MANIFEST.json (only checks that exist and have been run clean)."""
 ENGINES = [
  {'name': 'hypothesis', 'path': 'run.py + vlib/ + checks/', 'kind_free_text': 'Hypothesis 6.168 (python3-vt) drives every generator through vlib.core.Chooser; 16 worker processes; shrinking + replay files'},
+ {'name': 'ptrace-scheduler', 'path': 'native/ptrace_sched.c', 'kind_free_text': 'own PTRACE_SINGLESTEP tracer: the harness owns the interleaving of two processes executing chibicc-compiled atomic operations'},
  {'name': 'libfuzzer', 'path': 'native/hashmap_fuzz.c (built per run with clang -fsanitize=fuzzer,address,undefined against the tree under test)', 'kind_free_text': 'coverage-guided fuzzing of hashmap.c with the dictionary oracle inside the target'},
 ]
 BUILT = {
@@ -100,4 +101,10 @@ BUILT = {
   level='fault_enumeration',
   text='Every command shape (-E/-S/-c/link, with/without -o, 1-3 inputs of six kinds) is run with every single point of failure of its subprocess pipeline (k-th cc1, k-th as, ld; exit status or signal; unwritable output): exit status, exactly-the-right outputs, untouched outputs of failed units and removal of every temporary are checked against a 60-line model (20 k combinations quick, all 30 k thorough). Concurrent bundles of 2-12 drivers in one directory must each behave as when run alone.',
   note='the enumerated space is finite and complete in the thorough tier (quick thins permutations of three distinct input kinds); kernel-level interleavings of concurrent drivers are sampled, not controlled'),
+ 'C16': dict(
+  technique='schedule-controlled property-based testing: Hypothesis draws pairs of atomic operations and an instruction-level schedule; a ptrace tracer single-steps two processes sharing the object through the chibicc-emitted code; linearizability oracle from a Python model (cross-checked on gcc-compiled code) + real-thread contended stress with linearisation-independent invariants',
+  level='exploration',
+  text='The harness owns the schedule: operation pairs over every integer width, _Bool, pointers, float and double, reached through pointer/member/index paths, are single-stepped in a drawn order; the final value and both results must match one of the two sequential orders (which also checks CAS failure write-back, exchange and op= values). 23 stress programs with 4 threads check invariants that hold under every linearisation (the layer that can see a missing lock prefix).',
+  note='layer A assumes one instruction is indivisible; two-operation histories only; stress results are probabilistic; not a proof over all interleavings',
+  also=['ptrace-scheduler']),
 }
